@@ -1,4 +1,4 @@
-import ZvbiModel.Net.LemmasFaithful
+import ZvbiModel.Net.LemmasGap
 /-!
 # C13 - station, programme, time and aspect announcements are faithful and debounced
 
@@ -148,11 +148,14 @@ theorem announcement_settles (lk : Lookup) (c : Carrier) (v : Nat) (s : State) (
 
 /-- While nothing is pending and every reception (VPS, 8/30-1, 8/30-2, XDS name and call letters; WSS words
     and pages are free) equals what is stored, in any interleaving over any number of regular frames,
-    neither NETWORK nor NETWORK_ID is raised, the network record stays as it is and no cached page is lost. -/
+    neither NETWORK nor NETWORK_ID is raised, the network record stays as it is, the countdown stays idle, and a
+    page cached at any point of the history is still cached at its end. -/
 theorem no_reannounce_while_stable (cfg : Cfg) (n : Network) (mask : Nat) (hn : n.cycle ≠ 1)
     (atoms : List Atom) (s : State) (h1 : s.net = n) (h2 : s.chswcd = 0) (h3 : s.mask = mask)
     (hreg : RegularFrom s.time atoms) (hq : ∀ a ∈ atoms, SameAsStored n mask a) :
-    Silent (runAtoms cfg s atoms).2 ∧ (runAtoms cfg s atoms).1.net = n ∧ s.cached ⊆ (runAtoms cfg s atoms).1.cached :=
+    Silent (runAtoms cfg s atoms).2 ∧ (runAtoms cfg s atoms).1.net = n ∧ (runAtoms cfg s atoms).1.chswcd = 0 ∧
+    (runAtoms cfg s atoms).1.mask = mask ∧
+    (∀ q1 q2, atoms = q1 ++ q2 → (runAtoms cfg s q1).1.cached ⊆ (runAtoms cfg s atoms).1.cached) :=
   stable_run cfg n mask hn atoms s h1 h2 h3 hreg hq
 
 /-- WSS: an ASPECT event stores the announced aspect, and an event needs an aspect different from the stored
@@ -302,6 +305,68 @@ theorem station_change_two_receptions (cfg : Cfg) (t1 t2 : Nat) (s : State) (l1 
   refine ⟨?_, q.2.2.1, q.2.2.2.1⟩
   rw [countNetwork_append, q.1, hev, countNetwork_append, countNetwork_extra extra hex]
   rfl
+
+/-- Invariant of the channel-switch countdown: `vbi_chsw_reset` leaves it idle, whoever called it and with
+    whatever id (vbi.c:553-557) - so no reset is ever followed by a second one 40 frames later. -/
+theorem countdown_idle_after_reset (s : State) (id : Nat) : (chswReset s id).1.chswcd = 0 := chswReset_idle s id
+
+/-- The line that replaces an identified station by another known one leaves the countdown idle, even if a
+    time-stamp gap had armed it before. -/
+theorem countdown_idle_after_station_change (lk : Lookup) (c : Carrier) (v : Nat) (s : State) (h : v = cniOf c s.net)
+    (h2 : s.net.cycle = 1) (h3 : (lk c v).1 ≠ s.net.nuid) (h4 : s.net.nuid ≠ 0) (h5 : (lk c v).1 ≠ 0) :
+    (cniRx lk c v s).1.chswcd = 0 := by
+  rw [cniRx_switch lk c v s h h2 h3 h4 h5]
+
+/-- Histories with gaps.  From a state with an identified station and a countdown that is idle or has at
+    least three frames to go: a tick with ANY time stamp (a gap arms the 40-frame countdown), the new CNI
+    `b`, a tick with any time stamp, `b` again (known id, different from the old one), then any regular
+    history in which every reception equals what is now stored.  Over the whole history exactly ONE NETWORK
+    event; the change empties the cache and cancels the countdown; afterwards the countdown stays idle (no
+    second reset when the 40 frames are over), the new station stays identified, and every page cached for
+    the new station at any point stays cached. -/
+theorem station_change_exactly_one_event_and_flush_over_gap (cfg : Cfg) (s : State) (t0 t1 : Nat) (l1 l2 : Line)
+    (c : Carrier) (b : Nat) (quiet : List Atom) (hcd : s.chswcd = 0 ∨ 3 ≤ s.chswcd)
+    (h1 : lineCni s.mask l1 = some (c, b)) (h2 : lineCni s.mask l2 = some (c, b)) (hb : b ≠ cniOf c s.net)
+    (hid : (cfg.lk c b).1 ≠ s.net.nuid) (hold : s.net.nuid ≠ 0) (hnew : (cfg.lk c b).1 ≠ 0)
+    (hreg : RegularFrom (runAtoms cfg s [.tick t0, .line t0 l1, .tick t1, .line t1 l2]).1.time quiet)
+    (hq : ∀ a ∈ quiet, SameAsStored (runAtoms cfg s [.tick t0, .line t0 l1, .tick t1, .line t1 l2]).1.net s.mask a) :
+    countNetwork (runAtoms cfg s ([.tick t0, .line t0 l1, .tick t1, .line t1 l2] ++ quiet)).2 = 1 ∧
+    (runAtoms cfg s [.tick t0, .line t0 l1, .tick t1, .line t1 l2]).1.cached = [] ∧
+    (runAtoms cfg s [.tick t0, .line t0 l1, .tick t1, .line t1 l2]).1.chswcd = 0 ∧
+    (runAtoms cfg s ([.tick t0, .line t0 l1, .tick t1, .line t1 l2] ++ quiet)).1.net.nuid = (cfg.lk c b).1 ∧
+    (runAtoms cfg s ([.tick t0, .line t0 l1, .tick t1, .line t1 l2] ++ quiet)).1.chswcd = 0 ∧
+    (∀ q1 q2, quiet = q1 ++ q2 →
+      (runAtoms cfg s ([.tick t0, .line t0 l1, .tick t1, .line t1 l2] ++ q1)).1.cached ⊆
+      (runAtoms cfg s ([.tick t0, .line t0 l1, .tick t1, .line t1 l2] ++ quiet)).1.cached) :=
+  change_over_gap cfg s t0 t1 l1 l2 c b quiet hcd h1 h2 hb hid hold hnew hreg hq
+
+/-- 42 regular frames repeating the new station's VPS word, starting 40 ms after `t` -/
+def quietVps (l : Line) : Nat → Nat → List Atom
+  | 0, _ => []
+  | n + 1, t => .tick (t + 40000) :: .line (t + 40000) l :: quietVps l n (t + 40000)
+
+-- non-vacuity of the gap theorem: station 193, a 2 s gap, station 195 twice, a page, 42 quiet frames:
+-- one NETWORK event in all, countdown idle, the page still cached
+example :
+    let lk : Lookup := fun _ v => if v = 0x0AC1 then (193, [65]) else if v = 0x0AC3 then (195, [66]) else (0, [])
+    let cfg : Cfg := { lk := lk, xdsGuard := true }
+    let s := (runAtoms cfg init [.mask 3534, .tick 1000000, .line 1000000 vpsA, .tick 1040000, .line 1040000 vpsA]).1
+    let r := runAtoms cfg s ([.tick 3000000, .line 3000000 vpsG, .tick 3040000, .line 3040000 vpsG] ++
+                              (.tick 3080000 :: .line 3080000 (.page 0x234) :: quietVps vpsG 42 3080000))
+    s.net.nuid = 193 ∧ countNetwork r.2 = 1 ∧ r.1.chswcd = 0 ∧ r.1.cached = [0x234] ∧ r.1.net.nuid = 195 := by decide
+
+/-- The hypothesis "old station identified" is needed.  Observation on the countdown's design (not a defect of
+    the debounce): when NO station was identified before the gap, identifying the new one does not call
+    `vbi_chsw_reset`, the countdown keeps running and 40 frames later the decoder resets anyway: NETWORK (nuid 0),
+    cache dropped, station announced again.  Same history on the real code:
+    `corpus/C13/gap-unidentified-countdown-fires.ops`. -/
+theorem station_identified_during_countdown_observation :
+    let lk : Lookup := fun _ v => if v = 0x0AC1 then (193, [65]) else (0, [])
+    let cfg : Cfg := { lk := lk, xdsGuard := true }
+    let r := runAtoms cfg init ([.mask 3534, .tick 1000000, .tick 1040000, .tick 3000000, .line 3000000 vpsA,
+                                 .tick 3040000, .line 3040000 vpsA, .tick 3080000, .line 3080000 (.page 0x234)] ++
+                                quietVps vpsA 40 3080000)
+    countNetwork r.2 = 3 ∧ r.1.cached = [] ∧ r.1.net.nuid = 193 := by decide
 
 -- non-vacuity: station 193 identified, then another known station received twice: one NETWORK event, cache empty
 example :
